@@ -619,6 +619,12 @@ pub fn gen_c06(tier: Tier, seed: u64, em: &mut Emitter) {
             }
         }
     }
+    gen_test_util(em);
+}
+
+/// test_util: shorthands and scalar helpers with in- and out-of-range primitives (C06: they
+/// build what they say; C04: they are checked constructors -- panic exactly out of range)
+pub fn gen_test_util(em: &mut Emitter) {
     // test_util shorthands with in- and out-of-range primitives
     let u8s: [i64; 9] = [0, 1, 15, 16, 127, 128, 129, 200, 255];
     for &idx in &[0i64, 1, 2, 4] {
